@@ -1163,7 +1163,24 @@ class Register(GenericRegister):
             if value._cohdlstd_notify_mode is _NotifyOnWrite:
                 value.notify()
 
-        result = await std.as_awaitable(self._on_write_, type(self)._from_bits_(data))
+        # bytes that are not strobed keep the current content (flags: 0 = do not set)
+        current = std.concat(
+            *[
+                (
+                    std.zeros(elem)
+                    if isinstance(elem, int)
+                    else (
+                        std.zeros(1)
+                        if isinstance(self._fields_[elem], FlagField)
+                        else getattr(self, elem)._to_bits_()
+                    )
+                )
+                for elem in self._field_layout_
+            ][::-1]
+        )
+        masked = mask.apply(current, data)
+
+        result = await std.as_awaitable(self._on_write_, type(self)._from_bits_(masked))
 
         if result is None:
             # check that self contains no memory
